@@ -69,7 +69,23 @@ impl StyleSheetOutput {
         }
         self.prev_ser_type = next_ser_type;
         let output_start_pos = self.s.len();
-        if !write_integer_token(&mut self.s, &token) {
+        if let Token::Dimension {
+            has_sign,
+            value,
+            int_value,
+            unit,
+        } = &token.token
+        {
+            let number = Token::Number {
+                has_sign: *has_sign,
+                value: *value,
+                int_value: *int_value,
+            };
+            if !write_integer_token(&mut self.s, &number) {
+                number.to_css(&mut self.s).unwrap();
+            }
+            write_dimension_unit(&mut self.s, unit);
+        } else if !write_integer_token(&mut self.s, &token) {
             token.to_css(&mut self.s).unwrap();
         }
         let name = src.map(|x| {
@@ -118,12 +134,6 @@ fn write_integer_token(s: &mut String, token: &Token) -> bool {
             }
             (*has_sign, (*int_value as f32).copysign(*unit_value), *int_value)
         }
-        Token::Dimension {
-            has_sign,
-            value,
-            int_value: Some(int_value),
-            unit,
-        } if !(unit.as_ref() == "e" || unit.starts_with("e-")) => (*has_sign, *value, *int_value),
         _ => return false,
     };
     if int_value as f32 != value {
@@ -138,10 +148,24 @@ fn write_integer_token(s: &mut String, token: &Token) -> bool {
     } else {
         write!(s, "{}", int_value).unwrap();
     }
-    match token {
-        Token::Percentage { .. } => s.push('%'),
-        Token::Dimension { unit, .. } => cssparser::serialize_identifier(unit, s).unwrap(),
-        _ => {}
+    if let Token::Percentage { .. } = token {
+        s.push('%');
     }
     true
+}
+
+/// Write the unit of a dimension.
+///
+/// A unit which would read as an exponent after the number (`e5`, `E-2`, `e`) keeps its first letter escaped.
+fn write_dimension_unit(s: &mut String, unit: &str) {
+    let mut chars = unit.chars();
+    match chars.next() {
+        Some(c @ ('e' | 'E'))
+            if matches!(chars.clone().next(), None | Some('-') | Some('0'..='9')) =>
+        {
+            write!(s, "\\{:x} ", c as u32).unwrap();
+            cssparser::serialize_name(chars.as_str(), s).unwrap();
+        }
+        _ => cssparser::serialize_identifier(unit, s).unwrap(),
+    }
 }
